@@ -181,6 +181,27 @@ CLAIMED = {
              "exact antipodes under haversine are numerically singular in "
              "scikit-learn and treated as border cases; KD+haversine is not a "
              "supported pairing."),
+    "C20": dict(
+        category="exploration", design_ref="DESIGN.md 3/C20",
+        technique="deterministic simulation: seeded request histories against "
+                  "a per-run tile cache and a fake network with injected "
+                  "download faults; mosaics checked cell by cell against tiles "
+                  "whose pixels encode their global row/column",
+        text="Histories of elevation/get_tiles/get_native_grids/get_tile "
+             "requests with border-biased rectangles (unaligned, thinner than "
+             "a cell, across meridional/zonal borders, 4-tile corners, exact "
+             "border touches, +-180, northern/southern edge) run (a) with lazy "
+             "synthetic tiles whose value names the source pixel, and (b) at "
+             "low volume with the real get_tile/download_tile against a fake "
+             "urllib that can fail at open or mid-body, on a cold/warm/pre-"
+             "populated cache. Oracles: consecutive cell centres, cover with "
+             "< 1 cell overhang, every cell from the one right pixel, "
+             "download iff miss and at most once, a failed download surfaces "
+             "and a retry succeeds. Rectangles and histories are sampled.",
+        note="Overhangs of exactly one cell +-1e-9 deg are border cases (float "
+             "image of an edge on a grid line); faults during extractall are "
+             "not injected; in configuration (a) get_tile/download_tile are "
+             "harness functions as the property's observe_at prescribes."),
 }
 
 NOT_APPLICABLE = {
